@@ -177,6 +177,9 @@ def compute_table(ctx):
 
 def run(ctx):
     repo, ev = ctx.repo, ctx.ev
+    # "opcodes follow each flavour's published table": the tables consulted at run time are per flavour instance
+    from . import c01
+    c01.check_flavour_tables(ctx, "C02.O")
     if not os.path.exists(REF):
         raise AnalysisError("reference/wire_table.json missing")
     ref = json.load(open(REF))
